@@ -89,7 +89,11 @@ impl Campaign for C09c {
                 let chunked = index % 2 == 1;
                 let lens: &[usize] = if tier == Tier::Thorough { &[1, 5, 1024, 1025, 5000, 65536 + 1024, 65537 + 1025, 70000, 200_000] } else { &[1, 5, 1024, 1025, 5000, 20000, 65537 + 1025, 140_000] };
                 let len = *g.pick(lens);
-                let (rq, _) = body_request(&mut g, &id, len, chunked);
+                let (mut rq, _) = body_request(&mut g, &id, len, chunked);
+                if g.chance(1, 4) {
+                    // the client announces Expect: 100-continue but sends the body without waiting
+                    rq.headers.push(("Expect".into(), "100-continue".into()));
+                }
                 msgs.push(rq.bytes());
                 let finish = match g.below(4) {
                     0 | 1 => Finish::Respond(RespSpec::simple(200, token_body(&id, 10))),
@@ -336,7 +340,15 @@ impl Campaign for C18c {
                     let val = *g.pick(&["100-continue", "100-Continue", "100-CONTINUE"]);
                     rq.headers.push((name.into(), val.into()));
                 }
-                rq.headers.push(("Content-Length".into(), len.to_string()));
+                // the body is framed by Content-Length or (one run in three) by the chunked coding
+                let chunked = len > 0 && g.chance(1, 3);
+                let payload = if chunked {
+                    rq.headers.push(("Transfer-Encoding".into(), "chunked".into()));
+                    chunk_encode(&payload, &[*g.pick(&[1usize, 100, 4096])])
+                } else {
+                    rq.headers.push(("Content-Length".into(), len.to_string()));
+                    payload
+                };
                 let head = rq.bytes();
                 let plan = match g.below(6) {
                     0 | 1 => BodyPlan::None,
